@@ -478,9 +478,13 @@ func (r *run) start(base string) error {
 					up++
 				}
 			}
-			if up == len(protos) {
-				ok = true
-				break
+			// "state changed to 6" (Running) is logged by OUR mosn only after it bound all its listeners itself; a
+			// port that merely accepts could belong to somebody else who grabbed it after the probe bind
+			if up == len(protos) && r.logHas("[stagemanager] state changed to 6") > 0 {
+				if ex, _, _ := p.Exited(); !ex {
+					ok = true
+					break
+				}
 			}
 			time.Sleep(10 * time.Millisecond)
 		}
